@@ -2,12 +2,14 @@
 (* One "graph" record, then the results the applications printed for it (driver: tools/checks/c20.py). *)
 EXTENDS AppsAbs, Json, IOUtils, TLC
 Tr == ndJsonDeserialize(IOEnv.TRACE)
-VARIABLES l, n, E
-ResOK(r) ==
+VARIABLES l, n, E, inE, ckey, cD     \* inE: incoming-edge index of the current graph; (ckey, cD): the last distance vector computed
+IsDist(r) == r.failed = 0 /\ (r.k \in {"bfs", "sssp"} \/ (r.k = "dist" /\ r.kind \in {"bfs", "sssp"}))
+KeyOf(r) == <<IF r.k = "dist" THEN r.kind ELSE r.k, r.src>>
+\* D: the distance vector for KeyOf(r) (from the cache or freshly computed by Next)
+ResOK(r, D) ==
   IF r.failed = 1 THEN FALSE
   ELSE CASE r.k \in {"bfs", "sssp"} ->
-              LET D == TLCEval(Dist(n, E, r.k = "bfs", r.src))
-                  reached == {v \in Nodes(n) : D[v] # -1} IN
+              LET reached == {v \in Nodes(n) : D[v] # -1} IN
               /\ D[r.node] = r.dist
               /\ r.unvisited = n - Cardinality(reached)
               /\ r.maxdist = MaxSet({D[v] : v \in reached})
@@ -24,15 +26,19 @@ ResOK(r) ==
          \* distributed applications: the complete per-node output of all hosts, in global id order
          [] r.k = "dist" ->
               /\ Len(r.vals) = n
-              /\ CASE r.kind \in {"bfs", "sssp"} -> LET D == TLCEval(Dist(n, E, r.kind = "bfs", r.src)) IN \A v \in Nodes(n) : r.vals[v + 1] = D[v]
+              /\ CASE r.kind \in {"bfs", "sssp"} -> \A v \in Nodes(n) : r.vals[v + 1] = D[v]
                    [] r.kind = "cc" -> LET L == Label(n, E) IN \A u, v \in Nodes(n) : (r.vals[u + 1] = r.vals[v + 1]) = (L[u] = L[v])
                    [] r.kind = "kcore" -> {v \in Nodes(n) : r.vals[v + 1] = 1} = Peel(n, E, r.kk, Nodes(n))
                    [] OTHER -> FALSE
          [] OTHER -> FALSE
-Init == l = 1 /\ n = 0 /\ E = <<>>
+Init == l = 1 /\ n = 0 /\ E = <<>> /\ inE = <<>> /\ ckey = <<>> /\ cD = <<>>
 Next == /\ l <= Len(Tr) /\ l' = l + 1
-        /\ IF Tr[l].k = "graph" THEN n' = Tr[l].n /\ E' = Tr[l].edges
-           ELSE /\ UNCHANGED <<n, E>> /\ IF ResOK(Tr[l]) THEN TRUE ELSE PrintT(<<"REJECT", l, Tr[l].k>>)
-Spec == Init /\ [][Next]_<<l, n, E>>
+        /\ IF Tr[l].k = "graph" THEN /\ n' = Tr[l].n /\ E' = Tr[l].edges /\ inE' = InIndex(Tr[l].n, Tr[l].edges) /\ ckey' = <<>> /\ cD' = <<>>
+           ELSE /\ UNCHANGED <<n, E, inE>>
+                /\ IF IsDist(Tr[l]) /\ KeyOf(Tr[l]) # ckey
+                   THEN /\ ckey' = KeyOf(Tr[l]) /\ cD' = DistI(n, E, inE, KeyOf(Tr[l])[1] = "bfs", Tr[l].src)
+                   ELSE UNCHANGED <<ckey, cD>>
+                /\ IF ResOK(Tr[l], cD') THEN TRUE ELSE PrintT(<<"REJECT", l, Tr[l].k>>)
+Spec == Init /\ [][Next]_<<l, n, E, inE, ckey, cD>>
 Consumed == TLCGet("stats").diameter = Len(Tr) + 1
 =============================================================================
